@@ -385,6 +385,69 @@ int main(int argc, char **argv)
 	/* deterministic name: some loaders derive what they report from the file name */
 	snprintf(path, sizeof(path), "%s/in-%llu-%ld-%s.bin", scratch, (unsigned long long)seed, first, mode);
 
+	if (!strcmp(mode, "types")) {
+		/* one line per file: the format the library recognises it as (for picking one
+		 * representative per format) */
+		int i;
+		for (i = 0; i < nfiles; i++) {
+			struct xmp_test_info ti;
+			memset(&ti, 0, sizeof(ti));
+			if (xmp_test_module(argv[6 + i], &ti) == 0)
+				printf("type %s\t%s\n", argv[6 + i], ti.type);
+		}
+		return 0;
+	}
+	if (!strcmp(mode, "prefix")) {
+		/* every prefix length 0..count of every file, as an exactly sized heap image through
+		 * the memory and callback entry points of test and load: a read one byte past the
+		 * image hits the redzone; `first` = first prefix length */
+		int i;
+		long L, checked = 0;
+		for (i = 0; i < nfiles; i++) {
+			long n = 0;
+			unsigned char *in = read_file(argv[6 + i], &n);
+			if (!in)
+				continue;
+			printf("prefixfile %s\n", argv[6 + i]);
+			fflush(stdout);
+			for (L = first; L <= count && L <= n; L++) {
+				unsigned char *exact = (unsigned char *)malloc(L > 0 ? L : 1);
+				struct xmp_test_info ti;
+				xmp_context c = xmp_create_context();
+				struct cbs s;
+				struct xmp_callbacks cb;
+				memcpy(exact, in, L);
+				printf("prefix %ld\n", L);
+				fflush(stdout);
+				alarm(60);
+				xmp_test_module_from_memory(exact, L, &ti);
+				if (xmp_load_module_from_memory(c, exact, L) == 0) {
+					if (xmp_start_player(c, 8000, 0) == 0) {
+						xmp_play_frame(c);
+						xmp_end_player(c);
+					}
+					xmp_release_module(c);
+				}
+				s.b = exact; s.n = L; s.pos = 0; s.closed = 0; s.shorty = 0;
+				cb.read_func = cb_read;
+				cb.seek_func = cb_seek;
+				cb.tell_func = cb_tell;
+				cb.close_func = NULL;
+				xmp_test_module_from_callbacks(&s, cb, &ti);
+				s.pos = 0;
+				if (xmp_load_module_from_callbacks(c, &s, cb) == 0)
+					xmp_release_module(c);
+				alarm(0);
+				xmp_free_context(c);
+				free(exact);
+				checked++;
+			}
+			free(in);
+		}
+		printf("prefixdone %ld\n", checked);
+		return 0;
+	}
+
 	for (idx = first; idx < first + count; idx++) {
 		const char *src, *osrc;
 		unsigned char *in, *oin, *mut;
